@@ -204,9 +204,8 @@ Proof.
     + intros g0 m t Hin. destruct (Ia g0 m t Hin) as (r0 & Hf & Hl & Hc).
       destruct (set_dist_find g d _ _ _ Hf) as (r1 & Hf1 & Hjc & _).
       exists r1. rewrite Hjc. repeat split; [exact Hf1|exact Hl|lia].
-  - destruct (ph (get s m)) eqn:Ep; try discriminate.
-    destruct (find_gen g (hist s)) as [r|] eqn:Ef; [|discriminate].
-    destruct (Nat.eqb g g0) eqn:Eg; [|discriminate].
+  - destruct (find_gen g (hist s)) as [r|] eqn:Ef; [|discriminate].
+    destruct (assign_ok s m g) eqn:Eg; [|discriminate].
     destruct (g_dist r) as [d|]; [|discriminate].
     destruct (list_eqb a _); [|discriminate]. injection H as <-.
     destruct (find_gen_in _ _ _ Ef) as (Hi & _). destruct (Ih r Hi) as (Hjc & _).
@@ -269,16 +268,22 @@ Theorem adopted_is_distributed s m g a s' :
   step s (AssignBegin m g a) = Some s' ->
   exists r d, find_gen g (hist s) = Some r /\ g_dist r = Some d /\
               a = match lookup m d with Some l => l | None => [] end /\
-              owned (get s' m) = a /\ ph (get s m) = PJoined g.
+              owned (get s' m) = a /\
+              (ph (get s m) = PJoined g \/
+               (ph (get s m) = PJoining /\ g = latest_gen s /\ In m (g_members r))).
 Proof.
-  cbn [step]. destruct (ph (get s m)) eqn:Ep; try discriminate.
+  cbn [step].
   destruct (find_gen g (hist s)) as [r|] eqn:Ef; [|discriminate].
-  destruct (Nat.eqb g g0) eqn:Eg; [|discriminate]. apply Nat.eqb_eq in Eg. subst g0.
+  destruct (assign_ok s m g) eqn:Eg; [|discriminate].
   destruct (g_dist r) as [d|] eqn:Ed; [|discriminate].
   destruct (list_eqb a _) eqn:El; [|discriminate]. intros H. injection H as <-.
-  exists r, d. repeat split; try assumption; try reflexivity.
-  - apply list_eqb_eq. exact El.
-  - unfold get. cbn [mem]. rewrite lookup_update_eq. reflexivity.
+  exists r, d. split; [reflexivity|]. split; [exact Ed|]. split; [apply list_eqb_eq; exact El|].
+  split; [unfold get; cbn [mem]; rewrite lookup_update_eq; reflexivity|].
+  unfold assign_ok in Eg. rewrite Ef in Eg. destruct (ph (get s m)) eqn:Ep; try discriminate.
+  - right. apply andb_true_iff in Eg. destruct Eg as [E1 E2]. apply Nat.eqb_eq in E1.
+    split; [reflexivity|]. split; [exact E1|].
+    apply existsb_exists in E2. destruct E2 as (x & Hx & Hxe). apply Nat.eqb_eq in Hxe. subst x. exact Hx.
+  - left. apply Nat.eqb_eq in Eg. subst. reflexivity.
 Qed.
 
 Lemma disjoint_lookup : forall d m1 m2 l1 l2 p,
